@@ -199,8 +199,11 @@ class _STIXBase(collections.abc.Mapping):
             # loophole for custom_properties...
             allow_custom = True
 
+        # (the properties of registered toplevel-property-extensions are not
+        # custom, whichever way they were handed over)
         all_custom_prop_names = (custom_kwargs | custom_props.keys()) - \
-            self._properties.keys()
+            self._properties.keys() - \
+            registered_toplevel_extension_props.keys()
         if all_custom_prop_names:
             if not isinstance(self, stix2.v20._STIXBase20):
                 for prop_name in all_custom_prop_names:
